@@ -113,8 +113,8 @@ CLAIMED.update({
               "verbatim, spaced text verbatim under --verbatim (which wins), trimmed under --trim-space, refused with neither, empty refused unless --empty-ok; whatever is sent is "
               "the input or its trimmed form. Tie: the real setec binary (all flag combinations, file and pipe) against a local server whose database is inspected and whose "
               "/api/put counter detects contact; byte strings of every class and size through every retrieval path incl. cache, file client and server restart, every other one stored after a near-duplicate of itself. "
-              "Text layers: base64 (decode (encode b) = some b), the cache document and the database's clear document are modelled with round-trip theorems for all byte strings and tied byte for byte."),
-        note=COMMON_NOTE + "encoding/json decoding of arbitrary input, the API's wire bodies, utf8.Valid and bytes.TrimSpace are trusted (exercised, not modelled).",
+              "Text layers: base64 (decode (encode b) = some b), the cache document, the database's clear document and the API's wire bodies (every 200 answer; the client's put request) are modelled with round-trip theorems for all byte strings and tied byte for byte."),
+        note=COMMON_NOTE + "encoding/json decoding of arbitrary input, utf8.Valid and bytes.TrimSpace are trusted (exercised, not modelled).",
         technique="Lean 4 theorems (decision logic of the put policy; byte preservation through model layers) + differential runs of the real binary and all retrieval paths",
         design="8/C18"),
 })
